@@ -868,7 +868,12 @@ class QMI_UdpTransport(QMI_SocketTransport):
         # Create socket
         self._socket = socket.socket(socket.AF_INET, socket.SOCK_DGRAM)
         # To set the local address to point to our client, we need to bind it.
-        self._socket.bind(("", self._address[1]))
+        try:
+            self._socket.bind(("", self._address[1]))
+        except OSError:
+            # Release the socket if the local port can not be bound (e.g. already in use).
+            self._socket.close()
+            raise
 
     def close(self) -> None:
         _logger.debug("Closing UDP transport %s", self)
